@@ -47,7 +47,7 @@ pub fn grid1(ev: Ev) -> Vec<String> {
         g.push(spell(v));
         g.push(spell(-v));
     }
-    for t in ["0.3", "0.7", "1.0000001", "0.9999999", "(-0.3)", "(-0.36)", "(-0.367)", "(-0.3678)", "100.5", "150.25", "(-149.75)", "170", "171", "20", "21", "27", "28", "33", "1000000", "3.14159", "255", "256", "1024", "65536", "0.001"] {
+    for t in ["(-0)", "(-0.0)", "0.0", "0.3", "0.7", "1.0000001", "0.9999999", "(-0.3)", "(-0.36)", "(-0.367)", "(-0.3678)", "100.5", "150.25", "(-149.75)", "170", "171", "20", "21", "27", "28", "33", "1000000", "3.14159", "255", "256", "1024", "65536", "0.001"] {
         g.push(t.to_string());
     }
     g.sort();
